@@ -10,7 +10,7 @@ LEAN = os.path.join(os.path.dirname(HERE), 'lean')
 
 MODULES = {
     'C01': ['C01net', 'C01netfc', 'C01live', 'C01queue', 'C01', 'C01spec', 'C02', 'C03', 'C09'], 'C02': ['C02'], 'C03': ['C03'], 'C04': ['C04', 'C05term'], 'C05': ['C05', 'C05term'], 'C06': ['C06'], 'C07': ['C07', 'C07ign'],
-    'C08': ['C08', 'C08pass'], 'C09': ['C09'], 'C10': ['C10', 'C10live', 'C01net', 'C01netfc', 'C01', 'C01spec', 'C02', 'C03', 'C09', 'C04'], 'C11': ['C11', 'C11abort', 'C01spec', 'C03', 'C06', 'C04', 'C07', 'C07ign'], 'C12': ['C12'], 'C13': ['C13', 'C13net', 'C13netfc'], 'C14': ['C14'],
+    'C08': ['C08', 'C08pass'], 'C09': ['C09'], 'C10': ['C10', 'C10live', 'C10nostuck', 'C01net', 'C01netfc', 'C01', 'C01spec', 'C02', 'C03', 'C09', 'C04'], 'C11': ['C11', 'C11abort', 'C01spec', 'C03', 'C06', 'C04', 'C07', 'C07ign'], 'C12': ['C12'], 'C13': ['C13', 'C13net', 'C13netfc'], 'C14': ['C14'],
     'C15': ['C15', 'C15pass'], 'C16': ['C16', 'C16b'], 'C17': ['C17'], 'C18': ['C18'], 'C19': ['C19'], 'C20': ['C20'],
 }
 # properties whose proof files are finished and committed (others contribute only their table leaves)
